@@ -15,6 +15,16 @@ CHECKS = {
              'Comments are not required to survive. Known defects are listed in known_findings.json.',
         technique='deviation-bounded exhaustive input enumeration on the real reader/writer + reference-model comparison',
         ref='3/C01'),
+    'C03': dict(
+        text='Fault enumeration on the real reader: for every entity of the packed families K and I the conforming default population with exactly ONE '
+             'violation of each listed class (parameter removed/added at every position, every other literal kind at every attribute and aggregate '
+             'element, unknown/abstract keyword, undeclared enumeration item, * not derived, value for derived, $ for a required aggregate, dangling and '
+             'wrong-typed references, select value outside the list, duplicate id, missing ; ) or closing quote). Oracle: severity worse than USERMSG, '
+             'p21read exits non-zero, and every lexically intact other instance keeps its values.',
+        note='Trusted: p21ref/smodel; an integer literal for a REAL/NUMBER attribute is treated as a leniency and not generated; instances lexically '
+             'swallowed by an unterminated instance/string are exempt from confinement. Known defects are in known_findings.json.',
+        technique='exhaustive single-fault enumeration over structured inputs on the real reader + confinement oracle',
+        ref='3/C03'),
     'C19': dict(
         text='Explicit-state breadth-first search over operation histories on the real Python ARRAY/LIST/BAG/SET classes: 1224 constructions '
              '(bounds -1..3 x 0..4/unbounded x UNIQUE x OPTIONAL x 5 base types), every item assignment/add/read/query in every distinct state to depth 6 '
